@@ -12,6 +12,7 @@ import Shutter.Drive.Api
 import Shutter.Drive.Signers
 import Shutter.Drive.EpochKG
 import Shutter.Drive.EonPk
+import Shutter.Drive.GnosisSlot
 
 open Shutter
 
@@ -24,6 +25,7 @@ def dispatch (st : DState) (line : String) : DState × String :=
     let (a, out) := Drive.App.step st.app rest
     ({ st with app := a }, out)
   | "EPK" :: rest => (st, Drive.EonPk.step rest)
+  | "GS" :: rest => (st, Drive.GnosisSlot.step rest)
   | "KG" :: rest => (st, Drive.EpochKG.step rest)
   | "SG" :: rest => (st, Drive.Signers.step rest)
   | "API" :: rest => (st, Drive.Api.step rest)
